@@ -33,11 +33,11 @@ def plan(tier, seed):
     k = 6 if tier == 'quick' else 12
     for i in range(k):
         shards.append({'name': 'compositions-%d' % i, 'fn': 'shard_compositions', 'args': {'part': i, 'parts': k}})
-    r = 4 if tier == 'quick' else 10
+    r = 4 if tier == 'quick' else 24
     for i in range(r):
         shards.append({'name': 'random-%d' % i, 'fn': 'shard_random', 'args': {'part': i, 'parts': r}})
     shards.append({'name': 'digest-collisions', 'fn': 'shard_collisions', 'args': {}})
-    for i in range(2 if tier == 'quick' else 6):
+    for i in range(2 if tier == 'quick' else 12):
         shards.append({'name': 'task-%d' % i, 'fn': 'shard_task', 'args': {'part': i}})
     return shards
 
